@@ -458,6 +458,26 @@ pub fn c15(out: &mut Out, rng0: &mut Rng, tier: &Tier) {
             out.case("sl.hamming", l(vec![dstr_v(&d), slc_v(&s), dstr_v(&d2), slc_v(&s2)]), opt(hd));
             out.case("s.sl.eq", l(vec![dna(&bs), opsv(), dna(&bs2), ops2v()]), b(s == s2));
             out.case("s.sl.eq", l(vec![dna(&bs), opsv(), dna(&bs), opsv()]), b(s == s.clone()));
+            // views of the SAME backing string: the view against its own reverse complement (same start, same
+            // length, other strand - a palindrome test), and against a same-length window elsewhere in the string
+            {
+                let r = s.rc();
+                let mut ops_rc: Vec<V> = ops.iter().map(sop_v).collect();
+                ops_rc.push(sop_v(&SOp::Rc));
+                out.case("s.sl.eq", l(vec![dna(&bs), opsv(), dna(&bs), l(ops_rc.clone())]), b(s == r));
+                out.case("s.sl.eq", l(vec![dna(&bs), l(ops_rc), dna(&bs), opsv()]), b(r == s));
+                if m <= bs.len() {
+                    let st = if rng.chance(1, 3) { s.start.min(bs.len() - m) } else { rng.below(bs.len() - m + 1) };
+                    let w = SOp::Slice(st, st + m);
+                    let mut wops = vec![sop_v(&w)];
+                    let mut wv = d.slice(st, st + m);
+                    if rng.chance(1, 2) {
+                        wv = wv.rc();
+                        wops.push(sop_v(&SOp::Rc));
+                    }
+                    out.case("s.sl.eq", l(vec![dna(&bs), opsv(), dna(&bs), l(wops)]), b(s == wv));
+                }
+            }
         }
     }
     out.nt = false;
